@@ -66,6 +66,22 @@ func enc(e types.EncoderTo) []byte {
 	return buf.Bytes()
 }
 
+// observingWriter looks at the caller's data each time the encoder writes (up to budget times).
+type observingWriter struct {
+	look    func() bool
+	budget  int
+	writes  int
+	changed int // first write at which the data looked different
+}
+
+func (w *observingWriter) Write(p []byte) (int, error) {
+	w.writes++
+	if w.writes <= w.budget && w.changed == 0 && !w.look() {
+		w.changed = w.writes
+	}
+	return len(p), nil
+}
+
 func plain(txns []types.V2Transaction) []byte {
 	var buf bytes.Buffer
 	en := types.NewEncoder(&buf)
@@ -131,6 +147,23 @@ func checkBlock(ch *sim.Chain, parent consensus.State, b types.Block, bs consens
 	}
 	if !bytes.Equal(before, plain(txns)) {
 		return stats.Failf("C18/purity", "multiproof encoding modified the transactions")
+	}
+	// ... nor while it is going on: an encoder hands its bytes to a connection piece by piece, and whenever it does, the
+	// block another peer's goroutine (or a validator) reads at that moment is the block as it was
+	for _, form := range []struct {
+		name string
+		v    types.EncoderTo
+	}{{"V2TransactionsMultiproof", types.V2TransactionsMultiproof(txns)}, {"V2Block", types.V2Block(b)}} {
+		w := &observingWriter{look: func() bool { return bytes.Equal(plain(txns), before) }, budget: 12}
+		en := types.NewEncoder(w)
+		form.v.EncodeTo(en)
+		en.Flush()
+		if w.changed > 0 {
+			return stats.Failf("C18/purity/during-encoding", "while %s.EncodeTo was writing (write #%d of %d), the caller's transactions were not the ones it had passed in", form.name, w.changed, w.writes)
+		}
+		if w.writes > 1 {
+			rec.Label("observed-during-encoding:" + form.name)
+		}
 	}
 	var dec types.V2TransactionsMultiproof
 	d := types.NewBufDecoder(mp)
